@@ -189,7 +189,7 @@ def subst_int(node, n):
 
 
 @obligation(tier="quick", timeout=200, shards=[{"site": s} for s in ("top", "frag2")],
-            samples=[{"k": 0, "n": 2**31}, {"k": 4, "n": 5}],
+            samples=[{"k": 0, "n": 2**31}, {"k": 4, "n": 5}, {"k": 0, "n": -2**31}, {"k": 3, "n": 2**31 - 1}, {"k": 1, "n": -2**31 - 1}, {"k": 6, "n": 0}, {"k": 0, "n": -10**9}],
             symbolic=["n: int (unbounded) — the value of an Int literal (text abstracted as int(text)=n)"],
             selectors=["k: literal position (argument, list item, nested list, input field, nested input field, directive argument, list of objects)"],
             bounds="9 literal positions x 2 sites",
